@@ -1,10 +1,189 @@
 import Driver.Common
-/-! Judge for C08: not built yet (stub so that the target exists). -/
-open Lean Driver
+import EgVerif.Spec.CircuitBreaker
+open Lean EgVerif.CircuitBreaker
 
 namespace Driver.C08
 
-def judges : List (String × Judge) := []
+def parsePolicy (j : Json) : Except String Policy := do
+  let pj ← j.getObjVal? "policy"
+  pure { failTh := (← getNat pj "failTh"), slowTh := (← getNat pj "slowTh"),
+         timeBased := (← getNat pj "timeBased") != 0, size := (← getNat pj "size"),
+         permitted := (← getNat pj "permitted"), minCalls := (← getNat pj "minCalls"),
+         slowDur := (← getInt pj "slowDur"), maxWaitHalf := (← getInt pj "maxWaitHalf"),
+         waitOpen := (← getInt pj "waitOpen") }
+
+/-- `[k, a, b, c]`, missing entries read as 0: k=0 acquire; k=1 record (a = index of the
+acquire step, b = hasErr, c = duration ns); k=2 advance by a ns (negative: 0); other k: no-op. -/
+def parseOp (j : Json) : Except String Op := do
+  let a ← j.getArr?
+  let g (i : Nat) : Except String Int := if h : i < a.size then a[i].getInt? else pure 0
+  let k ← g 0
+  if k == 0 then pure Op.acquire
+  else if k == 1 then
+    let r ← g 1
+    -- a negative reference names no step
+    pure (Op.record (if r < 0 then 1000000000 else r.toNat) ((← g 2) != 0) (← g 3))
+  else if k == 2 then
+    let d ← g 1
+    pure (Op.advance (if d < 0 then 0 else d))
+  else pure (Op.advance 0)
+
+def parseObs (obs : Json) : Except String (List Obs) := do
+  let a ← getArr obs "steps"
+  a.toList.mapM fun e => do
+    let p ← e.getArr?
+    unless p.size == 4 do throw "step entry"
+    let b : Int ← p[0]!.getInt?
+    let i : Nat ← p[1]!.getNat?
+    let s : Nat ← p[2]!.getNat?
+    let t : Nat ← p[3]!.getNat?
+    pure ({ permitted := b != 0, id := i, st := s, total := t } : Obs)
+
+def obsToJson (os : List Obs) : Json :=
+  Json.mkObj [("steps", Json.arr (os.map (fun o =>
+    Json.arr #[Json.num (if o.permitted then 1 else 0), Json.num o.id, Json.num o.st, Json.num o.total])).toArray)]
+
+def robsToJson (os : List RObs) : Json :=
+  Json.arr (os.map (fun o =>
+    Json.arr #[Json.num (if o.permitted then 1 else 0), Json.num o.st, Json.num o.total])).toArray
+
+def opKind : Op → String
+  | .acquire => "acquire" | .record .. => "record" | .advance .. => "advance"
+
+def stName (n : Nat) : String :=
+  match n with | 0 => "disabled" | 1 => "closed" | 2 => "halfOpen" | 3 => "open" | _ => "forceOpen"
+
+/-- lock-step judge for the `core` harness (`pkg/util/circuitbreaker`) -/
+def judgeCore : Judge := liftJudge fun input obs => do
+  let p ← parsePolicy input
+  let t0 ← getInt input "t0"
+  let ops ← (← getArr input "ops").toList.mapM parseOp
+  match obsPanic obs with
+  | some m => pure { agree := false, spec := false, sig := "cb:panic", note := m }
+  | none =>
+  let got ← parseObs obs
+  let want := run p (new p t0) t0 [] ops
+  let agree := decide (got = want)
+  let ref := Ref.run p (Ref.new p t0) t0 [] ops
+  let dv := firstDivergence got ref 0
+  let spec := dv.isNone
+  let sig := match dv with
+    | none => ""
+    | some (i, f) =>
+      let before := if i == 0 then 1 else (ref.getD (i - 1) ⟨false, 1, 0⟩).st
+      "cb:" ++ stName before ++ ":" ++ (match ops[i]? with | some o => opKind o | none => "end") ++ ":" ++ f
+  let sts := want.map (·.st)
+  let opened := sts.any (· == 3)
+  let half := sts.any (· == 2)
+  let reclosed := (sts.zip (sts.drop 1)).any (fun (a, b) => a == 2 && b == 1)
+  let reopened := (sts.zip (sts.drop 1)).any (fun (a, b) => a == 2 && b == 3)
+  let rejected := ((ops.zip want).any fun (o, w) => o == Op.acquire && !w.permitted)
+  -- a record step that changed nothing although it named an admitted call: a stale result
+  let stale := ((ops.zip (want.zip (⟨false, 0, 1, 0⟩ :: want))).any fun (o, (w, prev)) =>
+      (match o with | .record .. => true | _ => false) && w.total == prev.total && w.st == prev.st)
+  let tags := [if p.timeBased then "time-window" else "count-window"]
+    ++ (if opened then ["opened"] else []) ++ (if half then ["half-open"] else [])
+    ++ (if reclosed then ["half-open->closed"] else []) ++ (if reopened then ["half-open->open"] else [])
+    ++ (if rejected then ["short-circuit"] else []) ++ (if stale then ["stale-or-unreferenced-record"] else [])
+    ++ (if p.permitted == 0 then ["permitted=0"] else []) ++ (if p.waitOpen == 0 then ["waitOpen=0"] else [])
+    ++ (if p.maxWaitHalf > 0 then ["maxWaitHalf>0"] else [])
+    ++ (if p.minCalls > p.size then ["minCalls>size"] else [])
+  pure { agree := agree, spec := spec, expected := Json.mkObj [("model", obsToJson want), ("automaton", robsToJson ref)],
+         tags := tags, nontrivial := opened, sig := sig,
+         note := match dv with | some (i, f) => s!"first divergence from the reference automaton at step {i}: {f}" | none => "" }
+
+/-- `wrap` harness (`pkg/resilience`): per call the handler outcome (0 ok, 1 err, 2 panic); observed
+per call: [returned class (0 nil, 1 handler error, 2 ErrShortCircuited, 3 panic), handler invoked,
+State() afterwards]. Durations are 0 or one minute so that real time does not matter. -/
+def judgeWrap : Judge := liftJudge fun input obs => do
+  let p ← parsePolicy input
+  let calls ← getIntList input "calls"
+  match obsPanic obs with
+  | some m => pure { agree := false, spec := false, sig := "wrap:panic", note := m }
+  | none =>
+  let got ← (← getArr obs "calls").toList.mapM fun e => do
+    let a ← e.getArr?
+    unless a.size == 3 do throw "call entry"
+    let x : Int ← a[0]!.getInt?
+    let y : Int ← a[1]!.getInt?
+    let z : Nat ← a[2]!.getNat?
+    pure (x, y, z)
+  -- model: every call = acquire; wrap trace; the recorded result feeds `record`
+  let rec go (cb : CB) (r : Ref) (cs : List Int) (acc : List (Int × Int × Nat)) (accR : List (Int × Int × Nat))
+      (fuel : Nat) : List (Int × Int × Nat) × List (Int × Int × Nat) :=
+    match fuel, cs with
+    | 0, _ => (acc.reverse, accR.reverse)
+    | _, [] => (acc.reverse, accR.reverse)
+    | fuel + 1, c :: rest =>
+      let o : Outcome := if c == 1 then .err else if c == 2 then .panic else .ok
+      let a := acquire p cb 0
+      let (evs, ret) := wrap a.2.permitted o
+      let cb' := evs.foldl (fun s e => match e with
+        | Ev.record hasErr => record p s a.2.id hasErr 0 0
+        | _ => s) a.1
+      let ra := r.acquire p 0
+      let r' := if ra.2 then ra.1.record p ra.1.epoch (classify p (o != .ok) 0) 0 else ra.1
+      let cls : WrapRet → Int := fun x => match x with
+        | .nil => 0 | .handlerErr => 1 | .shortCircuited => 2 | .panics => 3
+      let specRet : Int := if !ra.2 then 2 else (match o with | .ok => 0 | .err => 1 | .panic => 3)
+      go cb' r' rest ((cls ret, (if evs.contains Ev.handler then 1 else 0), cb'.st.toNat) :: acc)
+        ((specRet, (if ra.2 then 1 else 0), r'.st.toNat) :: accR) fuel
+  let (want, wantR) := go (new p 0) (Ref.new p 0) calls [] [] calls.length
+  let agree := decide (got = want)
+  let spec := decide (got = wantR)
+  let sc := want.any (fun x => x.1 == 2)
+  pure { agree := agree, spec := spec,
+         expected := Json.arr (want.map (fun (a, b, c) => Json.arr #[Json.num a, Json.num b, Json.num c])).toArray,
+         tags := (if sc then ["short-circuited"] else []) ++ (if calls.any (· == 2) then ["panic"] else [])
+                 ++ (if want.any (fun x => x.2.2 == 2) then ["half-open"] else []),
+         nontrivial := sc,
+         sig := if spec then "" else "wrap:record-count-or-short-circuit" }
+
+/-- `proxy` harness (`pkg/filters/proxy`): observed (result, status, backend calls) per request. -/
+def judgeProxy : Judge := liftJudge fun input obs => do
+  let p ← parsePolicy input
+  let calls ← getIntList input "calls"    -- 0: backend answers 200, 1: connection error, 2: backend answers 500 (failure code)
+  match obsPanic obs with
+  | some m => pure { agree := false, spec := false, sig := "proxy:panic", note := m }
+  | none =>
+  let got ← (← getArr obs "calls").toList.mapM fun e => do
+    let a ← e.getArr?
+    unless a.size == 3 do throw "call entry"
+    let x : String ← a[0]!.getStr?
+    let y : Nat ← a[1]!.getNat?
+    let z : Nat ← a[2]!.getNat?
+    pure (x, y, z)
+  let rec go (cb : CB) (cs : List Int) (acc : List (String × Nat × Nat)) (fuel : Nat) : List (String × Nat × Nat) :=
+    match fuel, cs with
+    | 0, _ => acc.reverse
+    | _, [] => acc.reverse
+    | fuel + 1, c :: rest =>
+      -- the wrapped handler (`doHandle`) returns an error for a connection failure and for a failure code
+      let o : Outcome := if c == 1 || c == 2 then .err else .ok
+      let a := acquire p cb 0
+      let (evs, ret) := wrap a.2.permitted o
+      let cb' := evs.foldl (fun s e => match e with
+        | Ev.record hasErr => record p s a.2.id hasErr 0 0
+        | _ => s) a.1
+      let perr : PoolErr := match ret with
+        | .nil => .none | .shortCircuited => .shortCircuited
+        | _ => if c == 2 then .poolError 500 "failureCode" else .poolError 503 "serverError"
+      -- for a failure code the backend's response is already the output response
+      let (res, code) := poolOutcome (c == 2) perr
+      go cb' rest ((res, code.getD (if c == 2 then 500 else 200), if evs.contains Ev.handler then 1 else 0) :: acc) fuel
+  let want := go (new p 0) calls [] calls.length
+  let agree := decide (got = want)
+  -- property: a short-circuited call is 503 / shortCircuited and contacts no server; and a call is
+  -- short-circuited exactly when the model's breaker refuses it
+  let spec := agree && got.all (fun (r, code, n) => r != "shortCircuited" || (code == 503 && n == 0))
+  let sc := want.any (fun x => x.1 == "shortCircuited")
+  pure { agree := agree, spec := spec,
+         expected := Json.arr (want.map (fun (a, b, c) => Json.arr #[Json.str a, Json.num b, Json.num c])).toArray,
+         tags := (if sc then ["short-circuited"] else []), nontrivial := sc,
+         sig := if spec then "" else "proxy:short-circuit-mapping" }
+
+def judges : List (String × Judge) :=
+  [("C08", judgeCore), ("core", judgeCore), ("wrap", judgeWrap), ("proxy", judgeProxy)]
 
 end Driver.C08
 
